@@ -395,7 +395,7 @@ Proof.
     assert (Hip : length (firstn k ds') = k) by (rewrite firstn_length; unfold k; lia).
     pose proof (plain_firstn k ds' P') as Pi. pose proof (plain_skipn k ds' P') as Pf.
     split.
-    + destruct (firstn k ds') as [| b t] eqn:Ei; [cbn in Hip; lia | ].
+    + destruct (firstn k ds') as [| b t] eqn:Ei; [cbn [length] in Hip; lia | ].
       cbn [app]. rewrite parse_dec_digit_first by (inversion Pi; assumption).
       change (b :: t ++ DOT :: skipn k ds') with ((b :: t) ++ DOT :: skipn k ds').
       unfold parse_udec. rewrite split_first_app by (apply plain_no_seps; exact Pi).
@@ -556,4 +556,30 @@ Proof.
     + vm_compute. exists 0%nat. reflexivity.
     + vm_compute. exists 14%nat. reflexivity.
   - vm_compute. reflexivity.
+Qed.
+
+(* ---- statements of Properties/C14.v ---- *)
+
+Lemma inplace_refuted :
+  exists (pubval : Z -> Qc) old new live tmp x v,
+    Forall wf_row new /\ consistent pubval new /\
+    Forall wf_row old /\ consistent pubval old /\
+    post_crash (inplace_proc new) (fs_of (Some old) None) (Some live) tmp /\
+    mget x (parse_csv live) = Some v /\ v <> pubval x.
+Proof.
+  destruct inplace_unsafe as (W & C & live & tmp & H & _ & E & N).
+  exists ex_pubval, ex_new, ex_new, live, tmp, 18997, (Qcfrac 12 10).
+  repeat split; assumption.
+Qed.
+
+Lemma c14_example :
+  Forall wf_row ex_new /\ consistent ex_pubval ex_new /\
+  exists live tmp,
+    post_crash (rename_proc ex_new) (fs_of (Some ex_new) None) (Some live) (Some tmp) /\
+    live = render_rows ex_new /\
+    tmp = map Z.to_N [50; 48; 50; 50; 45; 48; 49; 45; 48; 53; 44; 49; 46; 50] /\
+    mget 18997 (parse_csv live) = Some (ex_pubval 18997).
+Proof.
+  destruct inplace_unsafe as (W & C & _).
+  split; [exact W | ]. split; [exact C | ]. exact rename_example.
 Qed.
